@@ -202,3 +202,22 @@ Print Assumptions C06_truncation_preserves_rounding.
 Print Assumptions C06_far_digit_breaks_tie.
 Print Assumptions C06_nines_below_tie_round_down.
 Print Assumptions C06_trailing_zeros_irrelevant.
+
+(** SOURCE TIE (tools/rs2coq): slow::parse_mantissa (the big-integer digit accumulation with MAX_DIGITS truncation and the sticky digit; macros expanded, labelled loops kept) is regenerated as Gallina from src/slow.rs on every run (coq/gen/SrcSlow.v) and proved EQUAL to the hand-written model function, for arbitrary byte lists, every max_digits, both build modes, both back-ends. *)
+From ML Require Import model.SrcLib gen.Src gen.SrcBigint gen.SrcSlow gen.SrcParse proofs.SrcEqMantissa.
+
+Theorem C06_rs_parse_mantissa_eq :
+  forall (c : config) (T : tables) (L : limits) (b : build) (i fr : list Z) (maxd : Z),
+         (compact c = false -> LimbVal.limbs_ok (SMALL_INT_POW10 T)) ->
+         zlen i + zlen fr + 1 < 2 ^ 64 ->
+         rs_parse_mantissa c T L b i fr maxd = parse_mantissa c T L b i fr maxd.
+Proof. exact rs_parse_mantissa_eq. Qed.
+
+Theorem C06_rs_parse_mantissa_eq_TABLES :
+  forall (c : config) (L : limits) (b : build) (i fr : list Z) (maxd : Z),
+         zlen i + zlen fr < 2 ^ 63 ->
+         rs_parse_mantissa c TABLES L b i fr maxd = parse_mantissa c TABLES L b i fr maxd.
+Proof. exact rs_parse_mantissa_eq_TABLES. Qed.
+
+Print Assumptions C06_rs_parse_mantissa_eq.
+Print Assumptions C06_rs_parse_mantissa_eq_TABLES.
